@@ -93,12 +93,23 @@ Proof.
 Qed.
 
 (* ---- start-up ---- *)
-Lemma sim_start_winv ts0 : Forall init_ok ts0 -> WInv ts0 (fun _ => False) (sim_start true (init_world ts0)).
+(* tasks of module 1 that at_sim_start will spawn: still unspawned, without a message, while module 0 starts *)
+Definition later1 (ts0 : list task) (k : nat) : Prop :=
+  exists tk0, nth_error ts0 k = Some tk0 /\ t_start tk0 = 0 /\ t_mod tk0 = 1.
+
+Lemma extra_init : Extra 0 new_driver.
+Proof.
+  split; [exact snap_init|]. split.
+  - intros w H; discriminate.
+  - intros d es [].
+Qed.
+
+Lemma start_pre0 ts0 : Forall init_ok ts0 ->
+  PreEv ts0 (later1 ts0) (init_world ts0) 0 0 (start_tasks 0 0 ts0) false.
 Proof.
   intros Hinit. pose proof Hinit as Hinit'. rewrite Forall_forall in Hinit'.
   destruct (inject_spec ts0 0 sp_new SI_new eq_refl) as (I1 & I2 & I3). cbn [spend sp_new sp_new_at s_zero s_rest app map] in I3.
   set (w0 := init_world ts0).
-  set (later1 := fun k => exists tk0, nth_error ts0 k = Some tk0 /\ t_start tk0 = 0 /\ t_mod tk0 = 1).
   assert (Hev : forall e, In e (spend (w_fes w0)) ->
             exists j tk, nth_error ts0 j = Some tk /\ t_start tk <> 0 /\ etime e = t_start tk /\ epay e = msg_of j).
   { intros e He. assert (H : In (te e) (msgs 0 ts0)) by (eapply Permutation_in; [exact I3|apply in_map; exact He]).
@@ -107,72 +118,75 @@ Proof.
   { intros k tk Hk. destruct (Hinit' tk (nth_error_In _ _ Hk)) as (_ & H2 & _ & _ & H5 & _). split; assumption. }
   assert (Hst0 : Forall2 tstate ts0 ts0).
   { clear. induction ts0; constructor; [apply TUn; reflexivity|assumption]. }
-  (* the first start-up event: module 0 *)
-  assert (P0 : PreEv ts0 later1 w0 0 0 (start_tasks 0 0 ts0) false).
-  { constructor; cbn [w0 init_world w_fes w_now w_mail w_tasks w_owner w_nid].
-    - exact I1.
-    - exact I2.
-    - lia.
-    - intros e _. lia.
-    - reflexivity.
-    - constructor; [exact Hst0|exact Hinit| |].
-      + intros k tk s Hk Hbl. destruct (Hun0 k tk Hk) as [Hc _]. rewrite (blocked_sleep_cur _ _ Hbl) in Hc. discriminate.
-      + intros k k' tk tk' s s' Hk _ Hbl. destruct (Hun0 k tk Hk) as [Hc _]. rewrite (blocked_sleep_cur _ _ Hbl) in Hc. discriminate.
-    - lia.
-    - intros m' Hm'. exists 0. split; [lia|].
-      match goal with |- context [drv_of ?W m'] =>
-        replace (drv_of W m') with new_driver by (unfold drv_of; cbn [w_d0 w_d1]; destruct (m' =? 0); reflexivity) end.
-      split; [exact inv_init|]. split.
-      + cbn [andb app new_driver scheduled].
-        assert (Hnil : wakes m' (spend (inject 0 ts0 sp_new)) = []).
-        { destruct (wakes m' (spend (inject 0 ts0 sp_new))) as [|a l] eqn:E; [reflexivity|exfalso].
-          assert (Hin : In a (wakes m' (spend (inject 0 ts0 sp_new)))) by (rewrite E; left; reflexivity).
-          apply wakes_in in Hin. destruct Hin as (e & He & Hp & _). destruct (Hev e He) as (j & tk & _ & _ & _ & Ep).
-          unfold msg_of in Ep. lia. }
-        rewrite Hnil. constructor.
-      + constructor.
-        * intros k tk s Hk Hbl. destruct (Hun0 k tk Hk) as [Hc _]. rewrite (blocked_sleep_cur _ _ Hbl) in Hc. discriminate.
-        * intros d id [].
-    - apply start_tasks_nodup.
-    - intros k Hk. apply start_tasks_in in Hk. destruct Hk as (j & tk & -> & Hj & Hm & Hs). cbn [Nat.add].
-      exists tk. split; [exact Hj|]. split; [exact (Hun0 j tk Hj)|]. split; assumption.
-    - intros k e Hk He Ee. apply start_tasks_in in Hk. destruct Hk as (j & tk & -> & Hj & _ & Hs). cbn [Nat.add] in Ee.
-      destruct (Hev e He) as (j' & tk' & Hj' & Hne & _ & Ep). rewrite Ee in Ep. apply msg_of_inj in Ep. subst j'.
-      rewrite Hj in Hj'. injection Hj' as <-. contradiction.
-    - intros k (tk0 & Hk & _ & Hm) Hs. apply start_tasks_in in Hs. destruct Hs as (j & tk & -> & Hj & Hm' & _). cbn [Nat.add] in Hk.
-      rewrite Hj in Hk. injection Hk as <-. lia.
-    - constructor.
-      + intros e He _. destruct (Hev e He) as (j & tk & Hj & Hne & Et & Ep). exists j, tk.
-        split; [exact Ep|]. split; [exact Hj|]. split; [exact (Hun0 j tk Hj)|]. split; [exact Et|lia].
-      + rewrite filter_all.
-        * eapply Permutation_NoDup; [|apply (msgs_nodup ts0 0%nat)].
-          apply Permutation_sym. replace (map epay (spend (inject 0 ts0 sp_new))) with (map snd (map te (spend (inject 0 ts0 sp_new)))).
-          -- apply Permutation_map. exact I3.
-          -- rewrite map_map. reflexivity.
-        * intros p Hp. apply in_map_iff in Hp. destruct Hp as (e & <- & He). destruct (Hev e He) as (j & tk & _ & _ & _ & Ep).
-          unfold msg_of in Ep. lia.
-      + intros k tk Hk _. destruct (N.eq_dec (t_start tk) 0) as [Hz|Hnz].
-        * left. destruct (Hinit' tk (nth_error_In _ _ Hk)) as (_ & _ & _ & _ & _ & Hm).
-          destruct (N.eq_dec (t_mod tk) 0) as [Hm0|Hm1].
-          -- right. apply start_tasks_in. exists k, tk. repeat split; assumption.
-          -- left. exists tk. repeat split; [exact Hk|exact Hz|lia].
-        * right. assert (Hin : In (t_start tk, msg_of k) (msgs 0 ts0)) by (apply msgs_in; exists k, tk; repeat split; assumption).
-          apply (Permutation_in _ (Permutation_sym I3)) in Hin. apply in_map_iff in Hin. destruct Hin as (e & Ee & He).
-          exists e. split; [exact He|]. unfold te in Ee. injection Ee as _ Ep. exact Ep.
-      + intros k [(tk0 & Hk & _)|Hs].
-        * exists tk0. split; [exact Hk|exact (Hun0 k tk0 Hk)].
-        * apply start_tasks_in in Hs. destruct Hs as (j & tk & -> & Hj & _). exists tk. split; [exact Hj|exact (Hun0 j tk Hj)]. }
-  pose proof (module_event_winv _ _ _ _ _ _ _ P0) as W1.
-  unfold sim_start. fold w0. set (w1 := module_event true 0 0 (start_tasks 0 0 (w_tasks w0)) false w0) in *.
-  change (w_tasks w0) with ts0 in *.
-  apply winv_take_snaps, module_event_winv.
+  constructor; cbn [w0 init_world w_fes w_now w_mail w_tasks w_owner w_nid].
+  - exact I1.
+  - exact I2.
+  - lia.
+  - intros e _. lia.
+  - reflexivity.
+  - constructor; [exact Hst0|exact Hinit| |].
+    + intros k tk s Hk Hbl. destruct (Hun0 k tk Hk) as [Hc _]. rewrite (blocked_sleep_cur _ _ Hbl) in Hc. discriminate.
+    + intros k k' tk tk' s s' Hk _ Hbl. destruct (Hun0 k tk Hk) as [Hc _]. rewrite (blocked_sleep_cur _ _ Hbl) in Hc. discriminate.
+  - lia.
+  - intros m' Hm'. exists 0. split; [lia|].
+    match goal with |- context [drv_of ?W m'] =>
+      replace (drv_of W m') with new_driver by (unfold drv_of; cbn [w_d0 w_d1]; destruct (m' =? 0); reflexivity) end.
+    split; [exact inv_init|]. split; [|split; [|exact extra_init]].
+    + cbn [andb app new_driver scheduled].
+      assert (Hnil : wakes m' (spend (inject 0 ts0 sp_new)) = []).
+      { destruct (wakes m' (spend (inject 0 ts0 sp_new))) as [|a l] eqn:E; [reflexivity|exfalso].
+        assert (Hin : In a (wakes m' (spend (inject 0 ts0 sp_new)))) by (rewrite E; left; reflexivity).
+        apply wakes_in in Hin. destruct Hin as (e & He & Hp & _). destruct (Hev e He) as (j & tk & _ & _ & _ & Ep).
+        unfold msg_of in Ep. lia. }
+      rewrite Hnil. constructor.
+    + constructor.
+      * intros k tk s Hk Hbl. destruct (Hun0 k tk Hk) as [Hc _]. rewrite (blocked_sleep_cur _ _ Hbl) in Hc. discriminate.
+      * intros d id [].
+  - apply start_tasks_nodup.
+  - intros k Hk. apply start_tasks_in in Hk. destruct Hk as (j & tk & -> & Hj & Hm & Hs). cbn [Nat.add].
+    exists tk. split; [exact Hj|]. split; [exact (Hun0 j tk Hj)|]. split; assumption.
+  - intros k e Hk He Ee. apply start_tasks_in in Hk. destruct Hk as (j & tk & -> & Hj & _ & Hs). cbn [Nat.add] in Ee.
+    destruct (Hev e He) as (j' & tk' & Hj' & Hne & _ & Ep). rewrite Ee in Ep. apply msg_of_inj in Ep. subst j'.
+    rewrite Hj in Hj'. injection Hj' as <-. contradiction.
+  - intros k (tk0 & Hk & _ & Hm) Hs. apply start_tasks_in in Hs. destruct Hs as (j & tk & -> & Hj & Hm' & _). cbn [Nat.add] in Hk.
+    rewrite Hj in Hk. injection Hk as <-. lia.
+  - constructor.
+    + intros e He _. destruct (Hev e He) as (j & tk & Hj & Hne & Et & Ep). exists j, tk.
+      split; [exact Ep|]. split; [exact Hj|]. split; [exact (Hun0 j tk Hj)|]. split; [exact Et|lia].
+    + rewrite filter_all.
+      * eapply Permutation_NoDup; [|apply (msgs_nodup ts0 0%nat)].
+        apply Permutation_sym. replace (map epay (spend (inject 0 ts0 sp_new))) with (map snd (map te (spend (inject 0 ts0 sp_new)))).
+        -- apply Permutation_map. exact I3.
+        -- rewrite map_map. reflexivity.
+      * intros p Hp. apply in_map_iff in Hp. destruct Hp as (e & <- & He). destruct (Hev e He) as (j & tk & _ & _ & _ & Ep).
+        unfold msg_of in Ep. lia.
+    + intros k tk Hk _. destruct (N.eq_dec (t_start tk) 0) as [Hz|Hnz].
+      * left. destruct (Hinit' tk (nth_error_In _ _ Hk)) as (_ & _ & _ & _ & _ & Hm).
+        destruct (N.eq_dec (t_mod tk) 0) as [Hm0|Hm1].
+        -- right. apply start_tasks_in. exists k, tk. repeat split; assumption.
+        -- left. exists tk. split; [exact Hk|split; [exact Hz|lia]].
+      * right. assert (Hin : In (t_start tk, msg_of k) (msgs 0 ts0)) by (apply msgs_in; exists k, tk; repeat split; assumption).
+        apply (Permutation_in _ (Permutation_sym I3)) in Hin. apply in_map_iff in Hin. destruct Hin as (e & Ee & He).
+        exists e. split; [exact He|]. unfold te in Ee. injection Ee as _ Ep. exact Ep.
+    + intros k [(tk0 & Hk & _)|Hs].
+      * exists tk0. split; [exact Hk|exact (Hun0 k tk0 Hk)].
+      * apply start_tasks_in in Hs. destruct Hs as (j & tk & -> & Hj & _). exists tk. split; [exact Hj|exact (Hun0 j tk Hj)].
+Qed.
+
+Lemma start_pre1 ts0 : Forall init_ok ts0 ->
+  let w1 := module_event true 0 0 (start_tasks 0 0 ts0) false (init_world ts0) in
+  PreEv ts0 (fun _ => False) w1 0 1 (start_tasks 1 0 (w_tasks w1)) false.
+Proof.
+  intros Hinit. pose proof Hinit as Hinit'. rewrite Forall_forall in Hinit'. cbn zeta.
+  pose proof (module_event_winv _ _ _ _ _ _ _ (start_pre0 ts0 Hinit)) as W1.
+  set (w1 := module_event true 0 0 (start_tasks 0 0 ts0) false (init_world ts0)) in *.
   destruct W1 as [Hsi Htc Hmail Hbase Hdrv [Mt Mn Ma Ml]].
   assert (Hnow : w_now w1 = 0) by apply module_event_now.
-  assert (Hsp1 : forall k, In k (start_tasks 1 0 (w_tasks w1)) -> later1 k).
+  assert (Hsp1 : forall k, In k (start_tasks 1 0 (w_tasks w1)) -> later1 ts0 k).
   { intros k Hk. apply start_tasks_in in Hk. destruct Hk as (j & tk & -> & Hj & Hm & Hs). cbn [Nat.add].
     destruct (Forall2_nth _ _ _ _ _ (b_states _ _ _ _ Hbase) Hj) as (tk0 & Hj0 & Hst).
     destruct (tstate_cases _ _ Hst (Hinit' tk0 (nth_error_In _ _ Hj0))) as (_ & E1 & E2 & _).
-    exists tk0. repeat split; [exact Hj0|lia|lia]. }
+    exists tk0. split; [exact Hj0|split; lia]. }
   constructor.
   - exact Hsi.
   - exact (eq_trans Htc Hnow).
@@ -181,7 +195,8 @@ Proof.
   - exact Hmail.
   - exact Hbase.
   - lia.
-  - intros m' Hm'. destruct (Hdrv m' Hm') as (l & Hl & Hinv & Hperm & Htie). exists l. repeat split; assumption.
+  - intros m' Hm'. destruct (Hdrv m' Hm') as (l & Hl & Hinv & Hperm & Htie & Hex). exists l.
+    split; [exact Hl|split; [exact Hinv|split; [exact Hperm|split; [exact Htie|exact Hex]]]].
   - apply start_tasks_nodup.
   - intros k Hk. destruct (Ml k (Hsp1 k Hk)) as (tk & Hk' & Hun). exists tk. split; [exact Hk'|]. split; [exact Hun|].
     apply start_tasks_in in Hk. destruct Hk as (j & tk' & -> & Hj & Hm & Hs). cbn [Nat.add] in Hk'. rewrite Hj in Hk'. injection Hk' as <-.
@@ -198,6 +213,50 @@ Proof.
       destruct (Forall2_nth _ _ _ _ _ (b_states _ _ _ _ Hbase) Hk) as (tk0' & Hk0' & Hst). rewrite Hk0 in Hk0'. injection Hk0' as <-.
       destruct (tstate_cases _ _ Hst (Hinit' tk0 (nth_error_In _ _ Hk0))) as (_ & E1 & E2 & _). split; lia.
     + intros k [[]|Hk]. exact (Ml k (Hsp1 k Hk)).
+Qed.
+
+Lemma sim_start_winv ts0 : Forall init_ok ts0 -> WInv ts0 (fun _ => False) (sim_start true (init_world ts0)).
+Proof.
+  intros Hinit. unfold sim_start. apply winv_take_snaps, module_event_winv. exact (start_pre1 ts0 Hinit).
+Qed.
+
+(* ---- termination ---- *)
+Lemma iter_terminates ts0 n : forall w, WInv ts0 (fun _ => False) w -> (mu w < n)%nat ->
+  exists w', iter_nat n (loop_step true) w = inr w'.
+Proof.
+  induction n as [|n IH]; intros w HW Hlt; [lia|]. cbn [iter_nat].
+  pose proof (loop_step_winv ts0 w HW) as H1. pose proof (loop_step_measure ts0 w HW) as H2.
+  destruct (loop_step true w) as [w'|w']; [apply IH; [exact H1|lia]|exists w'; reflexivity].
+Qed.
+
+Definition size (ts : list task) : nat := fold_right (fun tk n => (length (t_steps tk) + 1 + n)%nat) 0%nat ts.
+
+Lemma work_init ts : Forall init_ok ts -> work ts = size ts.
+Proof.
+  induction 1 as [|tk r Hi _ IH]; [reflexivity|]. cbn [work size fold_right]. fold (work r). fold (size r). rewrite IH.
+  destruct Hi as (_ & I2 & _ & _ & I5 & _). unfold wt. rewrite I2, I5. lia.
+Qed.
+
+Lemma msgs_len ts : forall i, (length (msgs i ts) <= length ts)%nat.
+Proof.
+  induction ts as [|tk r IH]; intros i; cbn [msgs length]; [lia|]. rewrite app_length. specialize (IH (S i)).
+  destruct (t_start tk =? 0); cbn [length]; lia.
+Qed.
+
+Lemma size_len ts : (length ts <= size ts)%nat.
+Proof. induction ts as [|tk r IH]; cbn [size fold_right length]; [lia|]. fold (size r). lia. Qed.
+
+Lemma sim_start_mu ts0 : Forall init_ok ts0 -> (mu (sim_start true (init_world ts0)) <= 3 * size ts0 + 2)%nat.
+Proof.
+  intros Hinit.
+  destruct (module_event_measure _ _ _ _ _ _ _ (start_pre0 ts0 Hinit)) as (n0 & A0 & _).
+  destruct (module_event_measure _ _ _ _ _ _ _ (start_pre1 ts0 Hinit)) as (n1 & A1 & _). cbn zeta in A1.
+  unfold sim_start, mu. change (w_tasks (take_snaps ?W)) with (w_tasks W). change (w_fes (take_snaps ?W)) with (w_fes W).
+  change (w_tasks (init_world ts0)) with ts0 in *.
+  destruct (inject_spec ts0 0 sp_new SI_new eq_refl) as (_ & _ & I3). cbn [spend sp_new sp_new_at s_zero s_rest app map] in I3.
+  pose proof (Permutation_length I3) as Hl. rewrite map_length in Hl.
+  change (w_fes (init_world ts0)) with (inject 0 ts0 sp_new) in A0.
+  pose proof (msgs_len ts0 0%nat). pose proof (size_len ts0). rewrite (work_init ts0 Hinit) in A0. lia.
 Qed.
 
 (* ---- whole runs ---- *)
@@ -225,4 +284,29 @@ Proof.
   destruct (iter_nat n (loop_step true) (sim_start true (init_world ts0))) as [w'|w'].
   - exact (winv_prefix _ _ _ H).
   - exact (winv_prefix _ _ _ (proj1 H)).
+Qed.
+
+(* ... and every run ends: the fuel of the model's main loop is never exhausted *)
+Theorem composite_sleep_exact ts0 : Forall init_ok ts0 ->
+  exists w, run_tasks true ts0 = (w, true) /\ Forall2 done_exact ts0 (w_tasks w).
+Proof.
+  intros Hinit.
+  assert (Hfuel : (mu (sim_start true (init_world ts0)) < Pos.to_nat (fuel ts0))%nat).
+  { pose proof (sim_start_mu ts0 Hinit) as H. unfold fuel. fold (size ts0).
+    pose proof (N.succ_pos_spec (16 * N.of_nat (size ts0) + 64)) as Hs. lia. }
+  destruct (iter_terminates ts0 _ _ (sim_start_winv ts0 Hinit) Hfuel) as (w' & Hw').
+  assert (Hrun : run_tasks true ts0 = (w', true)) by (unfold run_tasks; rewrite iter_until_nat, Hw'; reflexivity).
+  exists w'. split; [exact Hrun|]. exact (composite_sleep_exact_if_ends ts0 Hinit w' Hrun).
+Qed.
+
+(* every script line decodes into tasks of the shape the theorems ask for *)
+Lemma decode_init_ok input : Forall (fun tk => Forall frag_step (t_steps tk)) (decode input) -> Forall init_ok (decode input).
+Proof.
+  unfold decode. destruct input as [|nm [|n r]]; try (intros _; constructor).
+  set (mods := 1 + nm mod 2). assert (Hmods : mods <= 2) by (unfold mods; pose proof (N.mod_upper_bound nm 2); lia).
+  generalize (take_blobs (N.to_nat (N.min n (N.of_nat (length r)))) r). intros bl. induction bl as [|b bl IH]; cbn [map]; intros H; [constructor|].
+  inversion H as [|? ? Hb Hr]; subst. constructor; [|exact (IH Hr)].
+  unfold dec_task in *. destruct b as [|m0 [|s rest]]; cbn [t_steps t_cur t_iv t_log t_fin t_mod] in *;
+    (split; [exact Hb|]); repeat (split; [reflexivity|]); cbn [t_mod]; try lia.
+  assert (m0 mod mods < mods) by (apply N.mod_upper_bound; unfold mods; lia). lia.
 Qed.
